@@ -191,6 +191,14 @@ def run(U, rep, tier):
   # R2.6: the actuation part of the smooth force is the reference engine's actuator force law (shared with C11 R11.1)
   from braxlint.props import c11
   c11.force_law(U, rep, tier, rule='R2.6')
+  # R2.7: the model description the dynamics terms are computed from -- link frames, joint anchors, dof axes, inertias,
+  # armature, damping, stiffness, the tree -- is the reference built from the mjModel: load_model abstractly executed on the
+  # mock models of loader.py (shared with C14 R14.4; the mass matrix of a model whose free root keeps its XML pose, or whose
+  # inertia frame is misplaced, is not the reference engine's, however right the recursions are)
+  from braxlint.props import c14
+  c14.loader_fields(U, rep, rule='R2.7', prefix=('link.transform', 'link.joint', 'link.inertia', 'dof.motion', 'dof.armature',
+                                                 'dof.damping', 'dof.stiffness', 'link_parents', 'link_types', 'gravity'),
+                    label='loader:')
   f = U.func('brax.generalized.pipeline.step')
   s0 = int(os.environ.get('VERIF_SEED', '0') or 0)
   seeds = [s0 * 1000 + t for t in range(2 if tier == 'quick' else 5)]
